@@ -152,7 +152,10 @@ def tlc(pid, name, module, cfg=None, workers=None, timeout=600, env=None, simula
     """Run TLC on spec/<module>.tla with spec/<cfg>.  Returns a dict with the parsed result."""
     d = _tlc_workdir(pid, name)
     cfg = cfg or (module + ".cfg")
-    jopts = ["-XX:+UseParallelGC", "-Xmx" + heap, "-Xss256m"]
+    os.makedirs(os.path.join(d, "jtmp"), exist_ok=True)
+    # TLC unpacks its standard modules into java.io.tmpdir on every start: keep that inside the run's
+    # scratch directory instead of littering /tmp
+    jopts = ["-XX:+UseParallelGC", "-Xmx" + heap, "-Xss256m", "-Djava.io.tmpdir=" + os.path.join(d, "jtmp")]
     if dfs:
         jopts.append("-Dtlc2.tool.queue.IStateQueue=StateDeque")
     cmd = ["java"] + jopts + ["-cp", TLA_JAR + ":" + TLA_CM, "tlc2.TLC",
